@@ -267,6 +267,14 @@ def run(ctx) -> list[Inst]:
             if path[-1] == '*':
                 continue
             for w in wl:
+                if w.conv.startswith('lossy:'):
+                    insts.append(Inst(
+                        RULE, w.func.short, f"(iii) {cd['name']}: {'/'.join(path)} is written without loss", 'violation',
+                        msg=(f"'{path[-1]}' is written as '{stmt_text(w.value, 70)}': {w.conv[6:]} maps different "
+                             f"values of {w.src or 'the field'} to the same text, no reader can restore them "
+                             f"(the loaded value differs from the saved one)"),
+                        file=w.func.module.relpath, line=w.value.lineno, props=props))
+                    continue
                 if w.conv in ('dict', 'call', 'list-literal', 'const', 'other', 'none'):
                     continue
                 reads = [r for r in rby.get(path, []) if r.kind in ('sub', 'get')
